@@ -82,6 +82,12 @@ fn key_without_line_breaks(key: &str) -> String {
     key.replace("\n", "").replace("\r", "")
 }
 
+// The same for values and tokens: the link turns every line break into a blank, so a value that
+// kept a CR in its middle was stored with the CR here and with a blank on every other node
+fn value_without_line_breaks(value: &str) -> String {
+    value.replace("\n", "").replace("\r", "")
+}
+
 fn parse_auth_command(command: &mut std::str::SplitN<&str>) -> Result<Request, String> {
     let user = match command.next() {
         Some(key) => key,
@@ -210,7 +216,7 @@ fn parse_set_safe_command(command: &mut std::str::SplitN<&str>) -> Result<Reques
     }
 
     let value = match rest.next() {
-        Some(value) => value.replace("\n", ""),
+        Some(value) => value_without_line_breaks(value),
         None => return Err(String::from("set-safe must be followed by a key")),
     };
 
@@ -230,7 +236,7 @@ fn parse_set_command(command: &mut std::str::SplitN<&str>) -> Result<Request, St
         }
     };
     let value = match command.next() {
-        Some(value) => value.replace("\n", ""),
+        Some(value) => value_without_line_breaks(value),
         None => {
             log::debug!("SET needs a value");
             "".to_string()
@@ -420,7 +426,7 @@ fn parse_arbiter_command(_: &mut std::str::SplitN<&str>) -> Result<Request, Stri
 
 fn parse_set_permissions_command(command: &mut std::str::SplitN<&str>) -> Result<Request, String> {
     let user = match command.next() {
-        Some(user) => user.to_string(),
+        Some(user) => key_without_line_breaks(user),
         None => {
             return Err(format!("user is mandatory"));
         }
@@ -697,7 +703,7 @@ fn parse_create_db_command(command: &mut std::str::SplitN<&str>) -> Result<Reque
     };
 
     let token = match rest.next() {
-        Some(key) => String::from(key).replace("\n", ""),
+        Some(key) => value_without_line_breaks(key),
         None => {
             log::debug!("CreateDb needs and token");
             "".to_string()
@@ -718,14 +724,14 @@ fn parse_create_db_command(command: &mut std::str::SplitN<&str>) -> Result<Reque
 
 fn parse_create_user_command(command: &mut std::str::SplitN<&str>) -> Result<Request, String> {
     let user_name = match command.next() {
-        Some(name) => name,
+        Some(name) => key_without_line_breaks(name),
         None => {
             log::debug!("CreateUser needs to provide an user name");
-            ""
+            "".to_string()
         }
     };
     let token = match command.next() {
-        Some(key) => String::from(key).replace("\n", ""),
+        Some(key) => value_without_line_breaks(key),
         None => {
             log::debug!("CreateUser needs and token");
             "".to_string()
